@@ -209,6 +209,9 @@ pub struct StdBroker {
     pub deferred: Vec<(u16, Vec<AMQPFrame>)>,
     /// false: the script deliberately violates the protocol (C07 scenario), no content discipline
     pub strict_content: bool,
+    /// held replies are released only by `force("release:<chan>")` (batch driver), never offered
+    /// to the explorer
+    pub manual_release: bool,
 }
 
 impl StdBroker {
@@ -245,6 +248,7 @@ impl StdBroker {
             content_open: BTreeMap::new(),
             deferred: Vec::new(),
             strict_content: true,
+            manual_release: false,
         }
     }
 
@@ -763,7 +767,7 @@ impl Broker for StdBroker {
             return v;
         }
         for (chan, q) in &self.held {
-            if !q.is_empty() && !self.content_open.contains_key(chan) {
+            if !q.is_empty() && !self.content_open.contains_key(chan) && !self.manual_release {
                 v.push(format!("release({})", chan));
             }
         }
@@ -777,7 +781,7 @@ impl Broker for StdBroker {
 
     fn apply(&mut self, idx: usize, out: &mut BrokerOut) {
         let mut i = 0usize;
-        let chans: Vec<u16> = self.held.iter().filter(|(c, q)| !q.is_empty() && !self.content_open.contains_key(c)).map(|(c, _)| *c).collect();
+        let chans: Vec<u16> = self.held.iter().filter(|(c, q)| !q.is_empty() && !self.content_open.contains_key(c) && !self.manual_release).map(|(c, _)| *c).collect();
         for chan in chans {
             if i == idx {
                 let fs = self.held.get_mut(&chan).unwrap().pop_front().unwrap();
@@ -833,6 +837,23 @@ impl Broker for StdBroker {
     }
 
     fn force(&mut self, label: &str, out: &mut BrokerOut) -> bool {
+        // "release:<chan>": the oldest held reply of that channel
+        if let Some(c) = label.strip_prefix("release:").and_then(|x| x.parse::<u16>().ok()) {
+            let fs = match self.held.get_mut(&c).and_then(|q| q.pop_front()) {
+                Some(fs) => fs,
+                None => return false,
+            };
+            self.emit_now(&fs, out);
+            if self.manual_release {
+                // one manual release ends the holding: later replies are answered at once
+                self.hold_replies = false;
+                let rest: Vec<(u16, Vec<AMQPFrame>)> = self.held.iter_mut().flat_map(|(c, q)| q.drain(..).map(|f| (*c, f)).collect::<Vec<_>>()).collect();
+                for (c, f) in rest {
+                    self.emit(c, f, out);
+                }
+            }
+            return true;
+        }
         let pi = match self.pushes.iter().position(|p| p.manual && !p.used && p.label == label) {
             Some(i) => i,
             None => return false,
